@@ -465,7 +465,9 @@ if __name__ == "__main__":
     from gen_fast import gen_fast
     from gen_ilp import gen_ilp
     from gen_pool import gen_pool
-    for name, f in (("cli", main), ("const", gen_consts), ("dissim", gen_dissim), ("gamma", gen_gamma), ("kernel", gen_kernel), ("cont", gen_cont), ("sampler", gen_sampler), ("cst", gen_cst), ("fast", gen_fast), ("ilp", gen_ilp), ("pool", gen_pool)):
+    from gen_stat import gen_stat
+    from gen_shapes import gen_shapes
+    for name, f in (("cli", main), ("const", gen_consts), ("dissim", gen_dissim), ("gamma", gen_gamma), ("kernel", gen_kernel), ("cont", gen_cont), ("sampler", gen_sampler), ("cst", gen_cst), ("fast", gen_fast), ("ilp", gen_ilp), ("pool", gen_pool), ("stat", gen_stat), ("shapes", gen_shapes)):
         try:
             f()
             status.append("%s ok" % name)
